@@ -461,7 +461,7 @@ pub fn eval_unit_name(
             },
             BinOpType::Add | BinOpType::Sub => {
                 let (left_unit, left) = eval_unit_name(ctx, &binop.left)?;
-                let (right_unit, _right) = eval_unit_name(ctx, &binop.right)?;
+                let (right_unit, right) = eval_unit_name(ctx, &binop.right)?;
 
                 if left_unit != right_unit {
                     return Err(QueryError::generic(
@@ -470,7 +470,11 @@ pub fn eval_unit_name(
                             .to_string(),
                     ));
                 }
-                Ok((left_unit, left))
+                if binop.op == BinOpType::Add {
+                    Ok((left_unit, &left + &right))
+                } else {
+                    Ok((left_unit, &left - &right))
+                }
             }
             BinOpType::Frac => {
                 let (left_unit, left) = eval_unit_name(ctx, &binop.left)?;
@@ -523,14 +527,17 @@ pub fn eval_unit_name(
             BinOpType::ShiftR => todo!(),
             BinOpType::Mod => {
                 let (left_unit, left) = eval_unit_name(ctx, &binop.left)?;
-                let (right_unit, _right) = eval_unit_name(ctx, &binop.right)?;
+                let (right_unit, right) = eval_unit_name(ctx, &binop.right)?;
 
                 if left_unit != right_unit {
                     return Err(QueryError::generic(
                         "Modulo of values with differing dimensions is not meaningful".to_string(),
                     ));
                 }
-                Ok((left_unit, left))
+                if right == Numeric::zero() || right == Numeric::Float(0.0) {
+                    return Err(QueryError::generic("Division by zero".to_string()));
+                }
+                Ok((left_unit, &left % &right))
             }
             BinOpType::And | BinOpType::Or | BinOpType::Xor => {
                 let (left_unit, left) = eval_unit_name(ctx, &binop.left)?;
